@@ -41,7 +41,40 @@ def flags_decoder(an: Analysis, V) -> FunctionInfo:
                 f = an.prog.find_function(q)
                 if f is not None and len(f.params) == 1:
                     return f
+    # not handed over as it is: a value computed from co_flags (masked, shifted, ...)?
+    for (q, ctx), summ in it.summaries.items():
+        f = an.prog.find_function(q)
+        if f is None or len(f.params) != 1 or f.cls is not None:
+            continue
+        for p, v in summ["args"].items():
+            org = it.origins(v)
+            if org and all(a[0] == "const" or (a[0] == "src" and a[2] == (("a", "co_flags"),)) for a in org) and any(a[0] == "src" for a in org) \
+                    and any(isinstance(n, ast.Call) and (attr_chain(n.func) or "").endswith("_decompose") for n in ast.walk(f.node)):
+                return f
     raise AnalysisError("no function in the decode closure receives code.co_flags as its only argument")
+
+
+def r111_whole_word(an: Analysis, rep, V):
+    """The flag decoder is given co_flags itself: bits cleared (masked, shifted away) before the decoder's unknown-bits test never reach it."""
+    it, _ = an.interp("from_code", V)
+    fn = flags_decoder(an, V)
+    for g in an.closure("from_code", V):
+        for c in ast.walk(g.node):
+            if isinstance(c, ast.Call) and fn.qual in it.callees.get(id(c), ()) and c.args:
+                a0 = c.args[0]
+                vals = it.value_at(a0)
+                direct = any(a[0] == "src" and a[2] == (("a", "co_flags"),) for a in vals) and all(a[0] == "src" for a in vals)
+                from .encode_model import inline_locals
+                ae = inline_locals(g.node, a0)
+                lossy = [x for x in ast.walk(ae) if isinstance(x, ast.BinOp) and isinstance(x.op, (ast.BitAnd, ast.RShift, ast.Mod, ast.FloorDiv))]
+                if direct:
+                    rep.add("R11.1", f"{g.qual}::{fn.name} receives the whole flag word", True, loc(g.module, c), f"`{norm_src(a0)}` is code.co_flags itself", config=vname(V))
+                elif lossy:
+                    rep.add("R11.1", f"{g.qual}::{fn.name} receives the whole flag word", False, loc(g.module, c),
+                            f"`{norm_src(ae)[:70]}` clears bits of co_flags before the decoder looks at them (`{norm_src(lossy[0])[:50]}`): a word with one of those bits set (a "
+                            f"negative co_flags on 3.7: bit 31) is decoded as if the bit were not there, and to_code() writes a different co_flags - silently lossy", config=vname(V))
+                else:
+                    raise AnalysisError(f"{g.qual}: the argument `{norm_src(ae)[:60]}` of the flag decoder is computed from co_flags in a way this check does not decide")
 
 
 RESIDUAL_HINT = "residual"
@@ -739,6 +772,7 @@ def run(an: Analysis, rep):
     for V in VERSIONS:
         interps.append(an.interp("from_code", V)[0])
         rep.run(r111, an, rep, V)
+        rep.run(r111_whole_word, an, rep, V)
         res = rep.run(r112, an, rep, V)
         if res is not None:
             disp, top = res
@@ -751,6 +785,12 @@ def run(an: Analysis, rep):
     rep.run(r115, an, rep)
     from .common import purity
     rep.run(purity, an, rep, "R11.P", ["from_code", "to_code"])
+    from .common import truthiness_rule
+    rep.run(truthiness_rule, an, rep, "R11.T", ["from_code", "to_code", "parameters"], [("Args", "var_positional"), ("Args", "var_keyword")],
+            what="the name of *args / **kwargs (Optional[str]: '' is a name a hand-made code object can carry, None means the parameter is absent)")
+    from .common import SharedRules as _SR
+    from . import c09
+    rep.run(c09.unreferenced_rules, an, _SR(rep, "R11.U", "table entries no instruction references are all kept in the data (shared with C09's R09.3): otherwise to_code() rebuilds a shorter table and different flags, silently"))
     rep.run(r117, an, rep)
     rep.run(r119, an, rep)
     from .common import SharedRules
